@@ -860,3 +860,16 @@ for _k in ("trusted_base", "assumptions", "not_decided"):
 META["assumptions"] += ["mc.tq.add_new: queue_holder_thread::add_to_thread_map does not refuse the id (MC_EXCL_MAP_REFUSAL)",
                         "mc.tq.create_thread: a run_now request does not ask for pending_do_not_schedule (MC_EXCL_PENDING_ALIAS)"]
 STATIC = list(globals().get("STATIC", [])) + list(MC_STATIC)
+
+
+# ---- C17 units reused (added after seeded change C01-6 was missed): work_items_ / new_tasks_ / terminated_items_ are the lock-free
+# ---- back-end adapters of schedulers/lockfree_queue_backends.hpp; "push puts the element in exactly once, at the requested end" is their
+# ---- C17 contract and what queue.schedule_thread's stub wi_push assumes.  Same templates, same contracts, run here as well.
+_c17 = {}
+exec(compile(open("/verif/specs/C17/spec.py").read(), "/verif/specs/C17/spec.py", "exec"), _c17)
+for _u in _c17["UNITS"]:
+    if _u.name.startswith("backends.") and not _u.name.startswith("backends.ciq.") and _u.kind != "bounded":
+        _u.name = "c17." + _u.name
+        _u.template = "../C17/" + _u.template.replace("../C17/", "")
+        UNITS.append(_u)
+META["trusted_base"] = list(META.get("trusted_base", [])) + ["units c17.backends.* are the C17 units of the same name (specs/C17/backends*.c) with their trusted base"]
